@@ -941,22 +941,26 @@ func (e *absEnv) doCall(fr *absFrame, c *ssa.CallCommon, depth int) aval {
 	for _, a := range c.Args {
 		args = append(args, e.val(fr, a))
 	}
+	name := calleeName(c)
+	if name == "" && callee != nil {
+		name = funcName(callee) // a function value (net.FileListener handed to a helper) is the function it holds
+	}
 	if e.ext != nil {
-		if v, ok := e.ext(calleeName(c), args); ok {
+		if v, ok := e.ext(name, args); ok {
 			return v
 		}
 	}
-	if v, ok := e.strCall(calleeName(c), args); ok {
+	if v, ok := e.strCall(name, args); ok {
 		return v
 	}
-	if v, ok := e.stdCall(fr, calleeName(c), args, depth); ok {
+	if v, ok := e.stdCall(fr, name, args, depth); ok {
 		return v
 	}
 	if callee == nil || len(callee.Blocks) == 0 {
-		return aunk{"call " + calleeName(c)}
+		return aunk{"call " + name}
 	}
 	if p := fnPkg(callee); p == nil || !isModPkg(p.Path()) {
-		return aunk{"call " + calleeName(c)}
+		return aunk{"call " + name}
 	}
 	return e.call(callee, args, free, depth+1)
 }
